@@ -111,8 +111,11 @@ def rule_mode(ctx):
         if any(isinstance(x, ast.Assign) and any(U.is_self_attr(t_) and t_.attr in MAPF for t_ in x.targets) for x in walk_local(fi.node)):
             map_writers[fi.fq] = fi
     ctx.require(len(map_writers) >= 2, 'C10.mode', f'map writers found: {sorted(map_writers)}')
+    REKEY = ['_libsc3.main._clock_scheduler.rekey(self)']
+    rekeyers = {f2.fq for f2, t2 in sw_all if [norm(x) for x in t2.body] in (REKEY, REKEY + ['return'])}
     for fq, fi in sorted(map_writers.items()):
-        has = any(f2 is fi for f2, _ in sw_all)
+        # the re-keying mode switch is in the writer itself or in a self-helper it calls (after the map writes)
+        has = bool(rekeyers & set(U.self_closure(ctx.repo, tcl, fi)))
         ctx.ob('C10.mode', f'{fq}:map-writer-has-nrt-counterpart', has,
                'a function that changes the tempo map must re-key pending NRT tasks (RT queues are keyed by beat)', fi.node, m)
     # NRT queue entries remember their beat, are re-keyed with the clock's current map, and there is one entry per (clock, task)
@@ -142,6 +145,17 @@ def rule_mode(ctx):
             body == [f'if {tv}.clock is {cp}: self.add({cp}.beats2secs({tv}.beats), {tv})']
     ctx.ob('C10.mode', f'{rk.fq}', ok, 'rekey re-queues exactly the pending tasks of that clock at beats2secs(their beat), '
                                       'iterating over a copy of the queue', rk.node, m)
+    cl = m.classes['ClockScheduler'].methods.get('clear')
+    ctx.require(cl is not None, 'C10.mode', 'ClockScheduler.clear not found')
+    cp = cl.params[1]
+    loops = [x for x in walk_local(cl.node) if isinstance(x, ast.For)]
+    ok = False
+    if len(loops) == 1:
+        lp = loops[0]
+        tv = norm(lp.target.elts[1]) if isinstance(lp.target, ast.Tuple) and len(lp.target.elts) == 2 else None
+        ok = norm(lp.iter) in ('list(self.queue)', 'tuple(self.queue)') and tv is not None and \
+            [norm(x) for x in lp.body] == [f'if {tv}.clock is {cp}: self.queue.remove({tv})']
+    ctx.ob('C10.mode', f'{cl.fq}', ok, 'clear(clock) removes exactly the pending tasks of that clock, iterating over a copy', cl.node, m)
     from .c09 import identity_fields
     idf = identity_fields(ctx.repo, ct)
     ctx.ob('C10.mode', f'{ct.fq}:one-entry-per-task-and-clock', idf == {'clock', 'task'},
@@ -157,8 +171,15 @@ def rule_mode(ctx):
         elif fi.qualname.endswith('._tick'):
             ok = nb == ['return None']
             why = 'no ticking thread in NRT'
-        elif fi.fq in map_writers:
-            ok = nb == ['_libsc3.main._clock_scheduler.rekey(self)']
+        elif fi.qualname.endswith('.clear'):
+            recv = 'cls' if fi.is_classmethod else 'self'
+            ok = nb == [f'_libsc3.main._clock_scheduler.clear({recv})', 'return']
+            why = 'RT clear empties the clock\'s queue; the NRT counterpart removes the pending tasks of this clock from the global queue'
+        elif fi.fq in map_writers or nb[:1] == REKEY:
+            # re-keying is the required counterpart in a map writer; in a helper it is harmless anywhere
+            # (with an unchanged map it re-queues every task at the time it already has)
+            ok = nb in (REKEY, REKEY + ['return']) or (fi.fq in map_writers and nb == ['return'] and
+                                                       bool((rekeyers - {fi.fq}) & set(U.self_closure(ctx.repo, tcl, fi))))
             why = ('the RT branch notifies the clock thread, whose beat-keyed queue then follows the new map; the NRT '
                    'counterpart is re-keying the pending tasks of this clock')
         else:
@@ -407,6 +428,10 @@ def run(ctx):
 
 
 MUTANTS = [
+    dict(rule='C10.mode', name='(fix reverted) SystemClock.clear does nothing in NRT', file='sc3/base/clock.py',
+         old="            _libsc3.main._clock_scheduler.clear(cls)\n            return\n        with cls._sched_cond:", new="            return\n        with cls._sched_cond:"),
+    dict(rule='C10.mode', name='NRT clear drops every clock\'s tasks', file='sc3/base/clock.py',
+         old="            if clock_task.clock is clock:\n                self.queue.remove(clock_task)", new="            self.queue.remove(clock_task)"),
     dict(rule='C10.mode', name='(fix reverted) tempo setter NRT branch does nothing', file='sc3/base/clock.py',
          old="        # en tempo_\n        mdl.NotificationCenter.notify(self, 'tempo')\n        if self.mode == _libsc3.main.NRT_MODE:\n            _libsc3.main._clock_scheduler.rekey(self)\n",
          new="        # en tempo_\n        mdl.NotificationCenter.notify(self, 'tempo')\n        if self.mode == _libsc3.main.NRT_MODE:\n            return\n"),
@@ -458,3 +483,10 @@ MUTANTS = [
 ]
 
 REPAIRS = []
+
+
+EQUIV = [
+    dict(name='tempo setter delegates its notify to a helper', file='sc3/base/clock.py',
+         old="        # en tempo_\n        mdl.NotificationCenter.notify(self, 'tempo')\n        if self.mode == _libsc3.main.NRT_MODE:\n            _libsc3.main._clock_scheduler.rekey(self)\n        else:\n            with self._sched_cond:\n                self._sched_cond.notify()  # NOTE: is notify_one in C++.\n\n    def etempo",
+         new="        # en tempo_\n        mdl.NotificationCenter.notify(self, 'tempo')\n        self._map_changed()\n\n    def _map_changed(self):\n        if self.mode == _libsc3.main.NRT_MODE:\n            _libsc3.main._clock_scheduler.rekey(self)\n        else:\n            with self._sched_cond:\n                self._sched_cond.notify()  # NOTE: is notify_one in C++.\n\n    def etempo"),
+]
